@@ -28,6 +28,13 @@ CHECKS = {
         note="Trusted: the canonicaliser (sim/observe.py), SimReader, the in-memory str delivery as reference, CPython's strict codecs for the expected offset of undecodable bytes. K1 (eager validation of a refill block) is accepted as a known finding in exactly the class described in known_findings.txt. The C back-end is the generated _yaml.c / shipped .so (no Cython in the sandbox).",
         technique="deterministic simulation of the input channel: seeded read-size schedules + reference delivery as oracle",
         quick_timeout=900, thorough_timeout=10800),
+    "C19": dict(
+        category="fault_enumeration",
+        text="For each seeded case (values / documents x API x loader or dumper class incl. both back-ends x stream kind x callback set) the fault-free run records the invocation sequence of read / write / flush / constructor / representer / documents-iterator calls, and then EVERY index of that sequence is used as the failure point in a fresh execution (exhaustive per case; capped at 1000 points with first/last/flush-adjacent/seeded sample for the rare larger case), with the exception kind rotating through 21 kinds including every type the library catches internally. Checked per point: identity of the exception object, unchanged type/args/cause/notes, written or yielded prefix, fault-free follow-up run and reference call, unchanged global state; plus seeded sequences of 2-3 consecutive faulted calls. Exhaustive in the crash-point dimension of each case, sampled in the case dimension.",
+        design_ref="DESIGN.md section 3, C19",
+        note="Trusted: SimReader/SimWriter, the harness callbacks, the canonicaliser and the global-state digest (sim/observe.py). Only Python-visible seams can fail: allocation failures inside LibYAML have no seam and are not injected. StopIteration/GeneratorExit are not injected (PEP 479).",
+        technique="fault injection at every index of the recorded seam-invocation sequence (crash-point enumeration) in a deterministic simulation",
+        quick_timeout=900, thorough_timeout=10800),
 }
 
 ENGINE = {
